@@ -674,8 +674,10 @@ MANIFEST_ENTRY = {
              'the model (complex values at 1e-9 on random fields, non-square shapes, shifts, both methods and directions), and the '
              "property's own predicates on the real outputs (spot of a tilted aperture at k lambda f/D in the reported coordinates, "
              'physical integral at reported coordinates, exact translation by shifts, spot -> tilt). '
-             'PARTIAL: the index-rotation step fftshift/fft/ifftshift = centred DFT is compared, not proved here (C01 owns it); '
-             'FFT-route y-coordinate claims are restricted to square padded arrays (known finding fft-nonsquare-dx).'),
+             'Also proved: fftshift(fft(ifftshift(x))) with NumPy\'s index rotations IS the centred DFT for every length, so the FFT '
+             'route is covered end to end on each axis under the contract that scipy.fft computes the DFT sum. '
+             'PARTIAL: FFT-route y-coordinate claims are restricted to square padded arrays (known finding fft-nonsquare-dx); '
+             'the statement that the spot is the global maximum of |F| is checked on the real outputs, not proved.'),
     'note': ('Trusted: Lean kernel + propext/Classical.choice/Quot.sound; the ast->Lean translator (validated by running model vs '
              'code each run); numpy/scipy primitives; float64 rounding (1e-9 tolerance, observed 1e-14). Not covered: cupy/torch '
              'backends, float32 precision mode, energy normalisation (C02).'),
